@@ -29,6 +29,27 @@ fn check_day(n: i64, fails: &mut Vec<Failure>) {
     if date.iso_year() != y as i32 || date.iso_month() != m as u8 || date.iso_day() != d as u8 {
         fails.push(Failure { what: "iso fields".into(), input: format!("{y}-{m}-{d}"), expected: format!("{y}-{m}-{d}"), observed: format!("{}-{}-{}", date.iso_year(), date.iso_month(), date.iso_day()) });
     }
+    // calendar getters agree with the proleptic Gregorian rule; ISO 8601 weeks (Monday first, week 1 holds the year's first Thursday)
+    {
+        let dow = (n + 3).rem_euclid(7) + 1;
+        let doy = n - oracle::days_from_civil(y, 1, 1) + 1;
+        let leap = oracle::dim(y, 2) == 29;
+        let thu = n - (dow - 1) + 3;
+        let (wy, _, _) = oracle::civil_from_days(thu);
+        let week = (thu - oracle::days_from_civil(wy, 1, 1)) / 7 + 1;
+        macro_rules! g { ($name:literal, $e:expr, $want:expr) => {
+            match catch_unwind(|| $e) {
+                Ok(Ok(v)) => if v != $want { fails.push(Failure { what: format!("PlainDate::{}", $name), input: format!("{y}-{m}-{d}"), expected: format!("{:?}", $want), observed: format!("{:?}", v) }); },
+                other => fails.push(Failure { what: format!("PlainDate::{} failed", $name), input: format!("{y}-{m}-{d}"), expected: format!("{:?}", $want), observed: format!("{:?}", other.map(|x| x.map(|_| ()))) }),
+            } } }
+        g!("day_of_week", Ok::<_, temporal_rs::TemporalError>(date.day_of_week()), dow as u16);
+        g!("day_of_year", Ok::<_, temporal_rs::TemporalError>(date.day_of_year()), doy as u16);
+        g!("days_in_month", Ok::<_, temporal_rs::TemporalError>(date.days_in_month()), oracle::dim(y, m) as u16);
+        g!("days_in_year", Ok::<_, temporal_rs::TemporalError>(date.days_in_year()), if leap { 366u16 } else { 365u16 });
+        g!("in_leap_year", Ok::<_, temporal_rs::TemporalError>(date.in_leap_year()), leap);
+        g!("week_of_year", date.week_of_year(), Some(week as u16));
+        g!("year_of_week", date.year_of_week(), Some(wy as i32));
+    }
     // adding one day gives the calendar successor
     if n < oracle::MAX_DAY {
         let (y2, m2, d2) = oracle::civil_from_days(n + 1);
